@@ -31,16 +31,20 @@ Proof. vm_compute. reflexivity. Qed.
 Lemma intt_sched_ok : forallb (in_bounds 64 (length PSI_INV_BITREV)) intt_sched = true.
 Proof. vm_compute. reflexivity. Qed.
 
-Definition psi_tables_okb : bool :=
-  (length PSI_BITREV =? 64)%nat && (length PSI_INV_BITREV =? 64)%nat
-  && forallb canonicalb PSI_BITREV && forallb canonicalb PSI_INV_BITREV && canonicalb N_INV
-  && forallb (fun i => nth i PSI_BITREV 0 =? pow_mod psi (bitrev 6 i)) (seq 0 64)
-  && forallb (fun i => fp_mul (nth i PSI_BITREV 0) (nth i PSI_INV_BITREV 0) =? 1) (seq 0 64)
-  && (fp_mul N_INV 64 =? 1)
-  && forallb (fun k => pow_mod (ntt_root psi k) 64 =? P - 1) (seq 0 64)
-  && forallb canonicalb ROOTS.
-Lemma psi_tables_okb_true : psi_tables_okb = true.
+(* each table fact is its own vm_compute lemma (the kernel re-checks them with the VM) *)
+Lemma tbl_len_fwd : (length PSI_BITREV =? 64)%nat = true. Proof. vm_compute. reflexivity. Qed.
+Lemma tbl_len_inv : (length PSI_INV_BITREV =? 64)%nat = true. Proof. vm_compute. reflexivity. Qed.
+Lemma tbl_canon_fwd : forallb canonicalb PSI_BITREV = true. Proof. vm_compute. reflexivity. Qed.
+Lemma tbl_canon_inv : forallb canonicalb PSI_INV_BITREV = true. Proof. vm_compute. reflexivity. Qed.
+Lemma tbl_canon_ninv : canonicalb N_INV = true. Proof. vm_compute. reflexivity. Qed.
+Lemma tbl_powers : forallb (fun i => nth i PSI_BITREV 0 =? pow_mod psi (bitrev 6 i)) (seq 0 64) = true.
 Proof. vm_compute. reflexivity. Qed.
+Lemma tbl_inverses : forallb (fun i => fp_mul (nth i PSI_BITREV 0) (nth i PSI_INV_BITREV 0) =? 1) (seq 0 64) = true.
+Proof. vm_compute. reflexivity. Qed.
+Lemma tbl_ninv : (fp_mul N_INV 64 =? 1) = true. Proof. vm_compute. reflexivity. Qed.
+Lemma tbl_roots_neg_one : forallb (fun k => pow_mod (ntt_root psi k) 64 =? P - 1) (seq 0 64) = true.
+Proof. vm_compute. reflexivity. Qed.
+Lemma tbl_roots_canon : forallb canonicalb ROOTS = true. Proof. vm_compute. reflexivity. Qed.
 
 (* the psi tables of the current source: psi = table[32] is a primitive 128th root of unity (psi^64 = -1 for
    every odd power used as evaluation point), table[i] = psi^bitrev6(i), the inverse table holds the
@@ -53,27 +57,22 @@ Lemma psi_tables_ok :
   (N_INV * 64) mod P = 1 /\
   (forall k, (k < 64)%nat -> pow_mod (ntt_root psi k) 64 = P - 1).
 Proof.
-  pose proof psi_tables_okb_true as H. unfold psi_tables_okb in H.
-  repeat (apply andb_prop in H; let H' := fresh "H" in destruct H as [H H']).
-  split; [apply Nat.eqb_eq; exact H|].
-  split; [apply Nat.eqb_eq; exact H8|].
-  split; [apply forallb_canonical; exact H7|].
-  split; [apply forallb_canonical; exact H6|].
-  split; [apply canonicalb_ok; exact H5|].
-  split; [intros i Hi; apply Z.eqb_eq; apply (forallb_seq _ 64 H4 i Hi)|].
-  split; [intros i Hi; apply Z.eqb_eq; apply (forallb_seq _ 64 H3 i Hi)|].
-  split; [apply Z.eqb_eq; exact H2|].
-  intros i Hi. apply Z.eqb_eq. apply (forallb_seq _ 64 H1 i Hi).
+  split; [apply Nat.eqb_eq; exact tbl_len_fwd|].
+  split; [apply Nat.eqb_eq; exact tbl_len_inv|].
+  split; [apply forallb_canonical; exact tbl_canon_fwd|].
+  split; [apply forallb_canonical; exact tbl_canon_inv|].
+  split; [apply canonicalb_ok; exact tbl_canon_ninv|].
+  split; [intros i Hi; apply Z.eqb_eq; apply (forallb_seq _ 64 tbl_powers i Hi)|].
+  split; [intros i Hi; apply Z.eqb_eq; apply (forallb_seq _ 64 tbl_inverses i Hi)|].
+  split; [apply Z.eqb_eq; exact tbl_ninv|].
+  intros i Hi. apply Z.eqb_eq. apply (forallb_seq _ 64 tbl_roots_neg_one i Hi).
 Qed.
 Lemma ROOTS_canonical : Forall canonical ROOTS.
-Proof.
-  pose proof psi_tables_okb_true as H. unfold psi_tables_okb in H.
-  apply andb_prop in H. destruct H as [_ H]. apply forallb_canonical; exact H.
-Qed.
+Proof. apply forallb_canonical; exact tbl_roots_canon. Qed.
 Lemma ROOTS_neg_one r : In r ROOTS -> pow_mod r 64 = P - 1.
 Proof.
   unfold ROOTS. intros H. apply in_map_iff in H. destruct H as [k [<- Hk]]. apply in_seq in Hk.
-  destruct psi_tables_ok as (_ & _ & _ & _ & _ & _ & _ & _ & H). apply H. lia.
+  apply Z.eqb_eq. apply (forallb_seq _ 64 tbl_roots_neg_one k). lia.
 Qed.
 
 (* ------------------------------------------------------------------ the transforms without the option monad *)
@@ -98,9 +97,9 @@ Proof. destruct e as [[j jt] zi]. unfold pstep_fwd. rewrite !length_upd. reflexi
 Lemma length_pstep_inv tbl a e : length (pstep_inv tbl a e) = length a.
 Proof. destruct e as [[j jt] zi]. unfold pstep_inv. rewrite !length_upd. reflexivity. Qed.
 Lemma length_fold_fwd tbl s a : length (fold_left (pstep_fwd tbl) s a) = length a.
-Proof. revert a; induction s as [|e s IH]; intros a; simpl; auto. rewrite IH. apply length_pstep_fwd. Qed.
+Proof. revert a; induction s as [|e s IH]; intros a; cbn [fold_left]; auto. rewrite IH. apply length_pstep_fwd. Qed.
 Lemma length_fold_inv tbl s a : length (fold_left (pstep_inv tbl) s a) = length a.
-Proof. revert a; induction s as [|e s IH]; intros a; simpl; auto. rewrite IH. apply length_pstep_inv. Qed.
+Proof. revert a; induction s as [|e s IH]; intros a; cbn [fold_left]; auto. rewrite IH. apply length_pstep_inv. Qed.
 
 Lemma in_bounds_elim n m j jt zi :
   in_bounds n m (j, jt, zi) = true -> (j < n)%nat /\ (jt < n)%nat /\ (zi < m)%nat.
@@ -126,8 +125,8 @@ Lemma fold_fwd_pure tbl n s a :
   forallb (in_bounds n (length tbl)) s = true -> length a = n ->
   fold_left (step_fwd tbl) s (Some a) = Some (fold_left (pstep_fwd tbl) s a).
 Proof.
-  revert a; induction s as [|e s IH]; intros a Hs Ha; simpl; auto.
-  simpl in Hs. apply andb_prop in Hs. destruct Hs as [He Hs].
+  revert a; induction s as [|e s IH]; intros a Hs Ha; cbn [fold_left]; auto.
+  cbn [forallb] in Hs. apply andb_prop in Hs. destruct Hs as [He Hs].
   rewrite step_fwd_pure by (rewrite Ha; exact He).
   apply IH; [exact Hs | rewrite length_pstep_fwd; exact Ha].
 Qed.
@@ -135,8 +134,8 @@ Lemma fold_inv_pure tbl n s a :
   forallb (in_bounds n (length tbl)) s = true -> length a = n ->
   fold_left (step_inv tbl) s (Some a) = Some (fold_left (pstep_inv tbl) s a).
 Proof.
-  revert a; induction s as [|e s IH]; intros a Hs Ha; simpl; auto.
-  simpl in Hs. apply andb_prop in Hs. destruct Hs as [He Hs].
+  revert a; induction s as [|e s IH]; intros a Hs Ha; cbn [fold_left]; auto.
+  cbn [forallb] in Hs. apply andb_prop in Hs. destruct Hs as [He Hs].
   rewrite step_inv_pure by (rewrite Ha; exact He).
   apply IH; [exact Hs | rewrite length_pstep_inv; exact Ha].
 Qed.
@@ -184,22 +183,22 @@ Lemma fold_fwd_add tbl s a b :
   length a = length b ->
   fold_left (pstep_fwd tbl) s (vadd a b) = vadd (fold_left (pstep_fwd tbl) s a) (fold_left (pstep_fwd tbl) s b).
 Proof.
-  revert a b; induction s as [|e s IH]; intros a b H; simpl; auto.
+  revert a b; induction s as [|e s IH]; intros a b H; cbn [fold_left]; auto.
   rewrite pstep_fwd_add by exact H. apply IH. rewrite !length_pstep_fwd. exact H.
 Qed.
 Lemma fold_fwd_scale tbl s c a :
   fold_left (pstep_fwd tbl) s (vscale c a) = vscale c (fold_left (pstep_fwd tbl) s a).
-Proof. revert a; induction s as [|e s IH]; intros a; simpl; auto. rewrite pstep_fwd_scale. apply IH. Qed.
+Proof. revert a; induction s as [|e s IH]; intros a; cbn [fold_left]; auto. rewrite pstep_fwd_scale. apply IH. Qed.
 Lemma fold_inv_add tbl s a b :
   length a = length b ->
   fold_left (pstep_inv tbl) s (vadd a b) = vadd (fold_left (pstep_inv tbl) s a) (fold_left (pstep_inv tbl) s b).
 Proof.
-  revert a b; induction s as [|e s IH]; intros a b H; simpl; auto.
+  revert a b; induction s as [|e s IH]; intros a b H; cbn [fold_left]; auto.
   rewrite pstep_inv_add by exact H. apply IH. rewrite !length_pstep_inv. exact H.
 Qed.
 Lemma fold_inv_scale tbl s c a :
   fold_left (pstep_inv tbl) s (vscale c a) = vscale c (fold_left (pstep_inv tbl) s a).
-Proof. revert a; induction s as [|e s IH]; intros a; simpl; auto. rewrite pstep_inv_scale. apply IH. Qed.
+Proof. revert a; induction s as [|e s IH]; intros a; cbn [fold_left]; auto. rewrite pstep_inv_scale. apply IH. Qed.
 
 Lemma ntt_pure_add a b : length a = length b -> ntt_pure (vadd a b) = vadd (ntt_pure a) (ntt_pure b).
 Proof. apply fold_fwd_add. Qed.
